@@ -220,11 +220,6 @@ func (r *Runner) run(ctx *lcontext.Context, main *resolver.VCL, mode RunMode) (*
 
 	maps.Copy(r.lexers, lt.Lexers())
 
-	// If runner is running as stat mode, prevent to output lint result
-	if mode&RunModeStat > 0 {
-		return nil, nil
-	}
-
 	// Checking Fatal error, it means parse error occurs on included submodule
 	if lt.FatalError != nil {
 		if pe, ok := lt.FatalError.Error.(*parser.ParseError); ok {
@@ -240,6 +235,12 @@ func (r *Runner) run(ctx *lcontext.Context, main *resolver.VCL, mode RunMode) (*
 			}
 		}
 		return nil, ErrParser
+	}
+
+	// If runner is running as stat mode, prevent to output lint result
+	// (a syntax error in an included module has been reported above: statistics of a half parsed program are not printed)
+	if mode&RunModeStat > 0 {
+		return nil, nil
 	}
 
 	if len(lt.Errors) > 0 {
